@@ -1,7 +1,8 @@
-import sys
+import sys, re
 src, dst = sys.argv[1], sys.argv[2]
 s=open(src).read()
-i=s.index('open Octo Octo.Ty\n')+len('open Octo Octo.Ty\n')
+m=re.search(r'^open Octo.*\n', s, re.M)
+i=m.end()
 j=s.rindex('end Octo.Tc')
 t=open(dst).read()
 k=t.rindex('end Octo.Tc')
